@@ -235,17 +235,14 @@ def run(prog, world, sem, rep):
         ok = False
         detail = "anchor-lost: handler not found"
         if handler is not None:
-            from .C17 import push_sequences
+            from .msgs import response_sequences
             oks = [x for (bb, idx, kind, x) in sem.ret_sites(handler.be) if kind == "ok" and bb in handler.blocks]
             ok = bool(oks)
             n_seq = 0
             for x in oks:
                 rx = handler.resolve(x)
-                lists = find(rx, lambda y: y.op == "call" and y.info in ("cosmwasm_std::Response::add_submessages", "cosmwasm_std::Response::add_messages"))
-                if not lists:
-                    ok = False
-                for l in lists:
-                    for s in push_sequences(world, l.args[1]):
+                for l in [0]:
+                    for s in response_sequences(world, rx):
                         n_seq += 1
                         hit = False
                         for el in s:
